@@ -4,6 +4,7 @@ R16.1  decoding failures become ValueError: every exceptional exit of structure_
 R16.2  every descent of DataclassSerializer is guarded by the visited set (delegations to cattrs are unguarded)  [finding]
 R16.3  None stripping / dict conversion on every return path of the serialiser
 R16.4  the post-processor recurses with itself on containers (lists, dict values) so that every nested value is processed
+R16.11 a field the Meta map does not list keeps its own name as wire key in both directions (decode and encode agree)            [= R3.13]
 R16.10 the None-stripping pass descends into every dict and list (no return of the container as it came in)
 R16.9  no value computed from a class is memoised on that class and read back through an inheriting lookup (getattr/hasattr/attribute)
 R16.8  the raw-dict fallback of union decoding applies to dict[str, Any] only (guard evaluated over {str, other} x {Any, other})
@@ -24,6 +25,7 @@ from sa.report import Report
 def run(repo: Repo, rep: Report, tier: str) -> None:
     cv.rule_hook_pairs(repo, rep, "R16.5")
     cv.rule_rename_plumbing(repo, rep, "R16.6")
+    cv.rule_unlisted_field_keeps_its_name(repo, rep, "R16.11")
     cv.rule_recursive_registration(repo, rep, "R16.7")
     rule_class_memo(repo, rep, "R16.9")
     rule_strip_descends(repo, rep, "R16.10")
